@@ -89,9 +89,10 @@ def check_listener(ex, who, rx, stacks_by_addr, msgs, tag, dll='j1939-21'):
     return ok_all
 
 
-def h_xfer(ex, L, kind='p2p', shape='single', L2=0, kind2='p2p', reent=None, windows='sym', bystander=True, dll='j1939-21', addrs=None):
+def h_xfer(ex, L, kind='p2p', shape='single', L2=0, kind2='p2p', reent=None, windows='sym', bystander=True, dll='j1939-21', addrs=None, bam_interval=None):
     w = W.World(ex, mode='interleave')
     fd = dll != 'j1939-21'
+    kw = {'minimum_tp_bam_dt_interval': Fraction(bam_interval)} if bam_interval is not None else {}
     seg = 60 if fd else 7
     if windows == 'sym':
         wa = ex.fresh_int('win_a', 1, 255)
@@ -104,8 +105,8 @@ def h_xfer(ex, L, kind='p2p', shape='single', L2=0, kind2='p2p', reent=None, win
     elif reent == 'one':
         w.reentrant = ex.fresh_int('reentrant_frame', 0, 2 * npk + 6)
     a_, b_, c_ = addrs if addrs else (A, B, C)
-    sa = Stack(w, 'A', a_, dll=dll, max_cmdt_packets=wa)
-    sb = Stack(w, 'B', b_, dll=dll, max_cmdt_packets=wb)
+    sa = Stack(w, 'A', a_, dll=dll, max_cmdt_packets=wa, **kw)
+    sb = Stack(w, 'B', b_, dll=dll, max_cmdt_packets=wb, **kw)
     stacks = [sa, sb]
     if bystander:
         sc = Stack(w, 'C', c_, dll=dll, ecu_listener=True, max_cmdt_packets=1)
@@ -120,7 +121,7 @@ def h_xfer(ex, L, kind='p2p', shape='single', L2=0, kind2='p2p', reent=None, win
     for m in msgs:
         r = m.send()
         ex.claim('accepted', r is True)
-    horizon = T(2) + T('3/50') * npk
+    horizon = T(2) + (T('3/50') if bam_interval is None else Fraction(bam_interval) + Fraction(1, 100)) * npk
     w.run(until=w.now + horizon)
     for s in stacks:
         check_listener(ex, s, s.rx, by_addr, msgs, 'ca', dll)
@@ -148,7 +149,7 @@ def h_xfer(ex, L, kind='p2p', shape='single', L2=0, kind2='p2p', reent=None, win
         f.broadcast, f.connection = m.broadcast, (m.kind == 'p2p')
         fmsgs.append(f)
         ex.claim('followup.accepted', f.send() is True)
-    w.run(until=w.now + T(3))
+    w.run(until=w.now + T(3) + (Fraction(bam_interval) * 3 if bam_interval is not None else 0))
     for s in stacks:
         check_listener(ex, s, s.rx, by_addr, fmsgs, 'followup', dll)
     ex.claim('followup.job_threads_alive', all(s.alive() for s in stacks))
@@ -206,6 +207,9 @@ def jobs(tier):
             J(L=260, kind='p2p', windows=wins, bystander=False)
         J(L=300, kind='pdu2', windows=(1, 1), bystander=False)
         J(L=257, kind='bam255', windows=(1, 1), bystander=False)
+        # broadcasts that stay on the bus longer than the receivers' packet timeout T1 = 750 ms
+        J(L=126, kind='pdu2', windows=(1, 1))
+        J(L=40, kind='pdu2', windows=(1, 1), bam_interval='19/100')
         # other address values, incl. 0 (valid and falsy) and 253
         for ad in ([0, 0x20, 0x30], [0x10, 0, 0x30], [253, 1, 0]):
             for L in (8, 15):
